@@ -322,7 +322,7 @@ def _pre_nested(B, op, t0, t1, t2, t3, t4, t5):
     return 0 <= op < N_NOP
 
 
-@harness("C14", pre=_pre_nested, bounds={"quick": {"N": 4}, "thorough": {"N": 5}},
+@harness("C14", pre=_pre_nested, bounds={"quick": {"N": 4}, "thorough": {"N": 4}},
          shard=lambda B: [{"op": o, "t0": t} for o in range(N_NOP) for t in range(N_TOK)],
          sel=["t0..t5: a token vector spelling the argument structure (text, None, number, open list, open tuple, close, invalid object, tag): "
               "every nesting shape of at most N tokens, depth up to N", "op: 9 operations receiving that structure"],
